@@ -570,6 +570,17 @@ def marshalShell (t : ATy) (p : FP) (v : AVal) (body : AVal → Except Err Bytes
               | none => .ok (wrapHeader 0 isCompound tag b)
 
 
+/-- the element loop of `makeBody` for a slice -/
+def marshalElemsWith (f : AVal → Except Err Bytes) : List AVal → Except Err (List Bytes)
+  | [] => .ok []
+  | v :: vs =>
+    match f v with
+    | .error e => .error e
+    | .ok b =>
+      match marshalElemsWith f vs with
+      | .error e => .error e
+      | .ok bs => .ok (b :: bs)
+
 mutual
 /-- marshal.go `makeField` + `makeBody` -/
 def marshalField (d : Dialect) : ATy → FP → AVal → Except Err Bytes
@@ -584,7 +595,7 @@ def marshalField (d : Dialect) : ATy → FP → AVal → Except Err Bytes
     marshalShell (.seqOf s e) p v fun v =>
       match v with
       | .list vs =>
-        match marshalElems d e vs with
+        match marshalElemsWith (marshalField d e {}) vs with
         | .error err => .error err
         | .ok encs => .ok (concatAll (if d.sortSetOf && (p.set || s) then sortEncodings encs else encs))
       | _ => .error .other
@@ -606,14 +617,5 @@ def marshalFields (d : Dialect) : AFields → List AVal → Except Err Bytes
       | .error e => .error e
       | .ok bs => .ok (b ++ bs)
   | _, _ => .error .other
-def marshalElems (d : Dialect) : ATy → List AVal → Except Err (List Bytes)
-  | _, [] => .ok []
-  | t, v :: vs =>
-    match marshalField d t {} v with
-    | .error e => .error e
-    | .ok b =>
-      match marshalElems d t vs with
-      | .error e => .error e
-      | .ok bs => .ok (b :: bs)
 end
 end CTV.Der
